@@ -14,9 +14,9 @@ RULE = (
 
 def strategy():
     return gen_prog.program(
-        weights={"PUT": 12, "PUT-invalid": 2, "POST": 1, "DELETE": 4, "DELETE-coll": 1, "MKCOL": 2, "PROPPATCH": 4, "GET": 1, "PROPFIND": 1, "REPORT": 2, "RECREATE": 1, "RESTART": 1},
-        min_steps=8,
-        max_steps=22,
+        weights={"PUT": 12, "PUT-invalid": 3, "POST": 1, "DELETE": 4, "DELETE-coll": 1, "MKCOL": 2, "PROPPATCH": 5, "GET": 1, "PROPFIND": 1, "REPORT": 2, "RECREATE": 1, "RESTART": 1},
+        min_steps=12,
+        max_steps=26,
         cond_rate=5,
         focus=True,
     )
@@ -26,6 +26,6 @@ def nontrivial(program, st, r):
     return st.get("git:noop-checked", 0) >= 1 and st.get("noack:write", 0) >= 1 and st.get("ack:propset", 0) >= 1 and st.get("git:commit-checked", 0) >= 2
 
 
-CHECK = MachineCheck(ID, RULE, ("content", "git"), strategy, nontrivial, quick=10, thorough=150, assumptions=["git 2.39 CLI is the reference reader", "dangling objects reported by fsck are not errors", "GIT_OPTIONAL_LOCKS=0 so that the audit never rewrites the index"])
+CHECK = MachineCheck(ID, RULE, ("content", "git"), strategy, nontrivial, quick=18, thorough=200, assumptions=["git 2.39 CLI is the reference reader", "dangling objects reported by fsck are not errors", "GIT_OPTIONAL_LOCKS=0 so that the audit never rewrites the index"])
 main = CHECK.main
 replay = CHECK.replay
